@@ -11,7 +11,7 @@ def run(ctx):
     ctx.cov["distinct_nontrivial"] = stats[0]["nontrivial"]
     ctx.cov["exhaustive"] = True
     ctx.cov["rule"] = ("Wire.tla over bit vectors: encodings (zig-zag varint/varlong, uvarint, big-endian 8/16/32/64, float bits, uuid) of every boundary value 2^k, 2^k-1, 2^k+1, their negations and complements for k<W;"
-                       " decoder verdict (value, n / short / overflow) on every control-byte structure (0..MaxLen continuation bytes from 2-3 classes, optional terminal byte from {00,01,0f,10,7f}, optional trailing byte);"
+                       " decoder verdict (value, n / short / overflow) on every control-byte structure (0..MaxLen continuation bytes from 2-3 classes, optional terminal byte from {00,01,0f,10,7f}, 0, 1, 4 or 9 trailing bytes so that word-at-a-time fast paths are entered);"
                        " length prefixes for lengths around the 1/2/3-byte varint borders and null; every Reader method on short input. non-trivial = multi-byte encodings and rejected inputs")
     ctx.notes["runner"] = stats
     ctx.sample(cases[5]); ctx.sample([c for c in cases if c["kind"] == "dec"][100]); ctx.sample([c for c in cases if c["kind"] == "prefix"][0])
